@@ -17,6 +17,13 @@ The result is one of
     ("any", reason)                    UNPREDICTABLE / IMPLEMENTATION DEFINED / outside the modelled subset
     ("either", [outcome, outcome...])  each of the listed outcomes is architecturally acceptable
 
+Covered: the Short-descriptor format completely (TTBCR.N split, PD0/PD1, sections, supersections incl. the extended
+base address bits, large and small pages, domains / DACR, AP<2:0> with and without SCTLR.AFE, access flag, TEX remap
+attributes, SCTLR.EE, FCSE) and the Long-descriptor stage-1 format of the PL1&0 regime (TTBCR.EAE = 1: T0SZ/T1SZ
+region selection, EPD0/EPD1, start level 1 or 2, table / block / page / invalid descriptors, APTable / NSTable /
+XNTable / PXNTable accumulation, AF, AP<2:1>, NS, SH, MAIR type).  Long-descriptor faults are returned as Fault(ld=True);
+their DFSR encoding is not modelled because the emulator reaches a mock hook on every one of them.
+
 Not modelled (-> "any"): Hyp mode and the virtualization extensions (stage 2), instruction fetches (XN / PXN),
 alignment faults caused by the memory type (an unaligned access to Device / Strongly-ordered memory is UNPREDICTABLE
 without the virtualization extensions), external aborts on walks.
